@@ -48,6 +48,20 @@ Theorem c15_payload_is_joined_data :
 Proof. exact event_payload_is_joined_data. Qed.
 Print Assumptions c15_payload_is_joined_data.
 
+(* ... and in general: a block of field lines (no blank line inside) followed by the blank line gives exactly one event
+   iff it has a data line, with payload = the '\n'-join of ALL its data values in order and the last event name given;
+   comments, unknown fields, `event:` lines in between, CR line ends and the blanks after the colon do not matter *)
+Theorem c15_block_is_one_event :
+  forall (classify : option str -> str -> cls) (block : list str) (ev0 : option str) (acc : list str),
+  forallb (fun l => negb (is_blank l)) block = true ->
+  fold_lines classify (ev0, acc) (block ++ [[]]) =
+  match acc ++ block_data block with
+  | [] => ((block_event ev0 block, []), [])
+  | d => ((None, []), [parse_event classify (block_event ev0 block) (join_nl d)])
+  end.
+Proof. exact block_dispatch. Qed.
+Print Assumptions c15_block_is_one_event.
+
 (* "each carrying the payload unchanged": the provider frames of ANY chunked run, paired in order with the
    server-sent events of the body.  Terminal marker and payloads that are not JSON (or JSON nested too deep to be
    stored in a frame): raw = the payload = the joined data lines (c15_payload_is_joined_data), code point for code
@@ -286,3 +300,11 @@ Example c15_seq_top_of_range :
   /\ run_overflows (top_run (TWO64 - 6)) = true
   /\ wrap_run (top_run (TWO64 - 6)) <> top_run (TWO64 - 6).
 Proof. exact seq_top_of_range. Qed.
+
+(* a block with a comment, an event name with blanks around it, an unknown field, data lines with no / many blanks after the
+   colon and CR line ends: one event "x\ny" named "e" *)
+Example c15_block_demo :
+  forallb (fun l => negb (is_blank l)) demo_block = true
+  /\ block_data demo_block = [[120]; [121]] /\ block_event None demo_block = Some [101]
+  /\ snd (fold_lines cls0 (None, []) (demo_block ++ [[]])) = [parse_event cls0 (Some [101]) [120; 10; 121]].
+Proof. exact demo_block_event. Qed.
